@@ -330,8 +330,13 @@ def _root_of(objects, name):
 def _parent_cache_info():
     from inscripta.biocantor.parent.parent import Parent
 
-    ci = Parent.cache_info()
-    return [ci.hits, ci.misses, ci.currsize]
+    try:
+        ci = Parent.cache_info()
+        return [ci.hits, ci.misses, ci.currsize]
+    except AttributeError:
+        # the seam is an implementation detail of the library (functools.lru_cache on the class): a refactor may intern
+        # Parents another way.  Floods still run; evictions are then not measured (reported as 0), never an error
+        return [0, 0, 0]
 
 
 def _warm(obj):
@@ -358,7 +363,8 @@ def world_main(plan):
                 Parent(id=f"flood-{flood_serial}")
                 flood_serial += 1
             after = _parent_cache_info()
-            recs.append({"k": k, "t": t, "evicted": max(0, before[2] + st["n"] - after[2]), "pc": after})
+            measured = hasattr(Parent, "cache_info")
+            recs.append({"k": k, "t": t, "evicted": max(0, before[2] + st["n"] - after[2]) if measured else 0, "pc": after})
             continue
         if t == "gc":
             gc.collect()
